@@ -111,6 +111,7 @@ func Run(run *ev.Run) {
 			bodies = append(bodies, []byte(b.String()))
 		}
 	}
+	var prevEncoded, prevCopy []byte
 	for _, m := range []string{"GET", "PUT", "DELETE", "POST"} {
 		for _, qv := range queryValues {
 			for bi, body := range bodies {
@@ -120,6 +121,13 @@ func Run(run *ev.Run) {
 				}
 				run.Eval(1)
 				nb, hdr := kit.EncodeTunnelled(m, q, body)
+				// requests are built before they are sent: the bytes handed out for the previous request must not be
+				// affected by building this one
+				if prevEncoded != nil && !bytes.Equal(prevEncoded, prevCopy) {
+					run.Violation(g+"/codec/encoded-request-changed-by-a-later-encode", map[string]any{"generation": g, "part": "codec pair", "earlier_request_now": trunc(string(prevEncoded)), "earlier_request_was": trunc(string(prevCopy))})
+				}
+				prevEncoded, prevCopy = nb, append([]byte(nil), nb...)
+				run.Count("encode_aliasing_checks", 1)
 				req, _ := http.NewRequest("POST", "http://h/things", bytes.NewReader(nb))
 				for k := range hdr {
 					req.Header.Set(k, hdr.Get(k))
